@@ -227,7 +227,8 @@ def part_A(rec, tier, seed, fr, to, only=None):
                 chunks = {"t": ct, "yc": cy, POSD[fr]: cx}
                 ops = [(op, "X", dict(to=to)) for op in OPS1]
                 # a second axis that is never inner/outer: its chunking must not matter for the refusal
-                ops += [("interp", ["Y", "X"], dict(to={"Y": "left", "X": to})), ("diff", ["X", "Y"], dict(to={"Y": "left", "X": to}))]
+                ops += [("interp", ["Y", "X"], dict(to={"Y": "left", "X": to})), ("diff", ["X", "Y"], dict(to={"Y": "left", "X": to})),
+                        ("min", ["X", "Y"], dict(to={"Y": "left", "X": to})), ("max", ["Y", "X"], dict(to={"Y": "left", "X": to}))]
                 if (fr, to) == ("center", "left"):
                     ops += [("integrate", "X", {}), ("average", "X", {}), ("integrate", ["X", "Y"], {}), ("diff", "Y", dict(to="left")),
                             ("cumsum", ["Y", "X"], dict(to="left")), ("interp", ["X", "Y"], dict(to="left", boundary="fill", fill_value=2.0)),
